@@ -196,6 +196,9 @@ def h_angle(vc):
     d = SP.dot(av, bv)
     vc.ensure("angle < pi/2 <=> a.b > 0", Iff(SP.gtz(math.pi / 2 - r), SP.gtz(d)))
     vc.ensure("angle = pi/2 <=> a.b = 0", Iff(SP.eqz(r - math.pi / 2), SP.eqz(d)))
+    cr_ = SP.cross(av, bv)
+    vc.ensure("angle = 0 <=> parallel with a.b > 0", Iff(SP.eqz(r), And(SP.vzero(cr_), SP.gtz(d))))
+    vc.ensure("angle = pi <=> anti-parallel (a x b = 0, a.b < 0)", Iff(SP.eqz(r - math.pi), And(SP.vzero(cr_), SP.ltz(d))))
     vc.ensure("frame: operands unchanged", (vc.snapshot(a), vc.snapshot(b)) == before)
 
 
@@ -238,7 +241,7 @@ def groups(tier):
     add("identities", h_identities, [VEC + "cross", VEC + "__mul__"])
     add("Vector.length", h_length, [VEC + "length"])
     add("Vector.normalized", h_normalized, [VEC + "normalized"])
-    add("Vector.angle", h_angle, [VEC + "angle"])
+    add("Vector.angle", h_angle, [VEC + "angle"], stubs=[(C.T_PAR, C.x_parallel), (C.T_VEQ, C.x_vector_eq), (C.T_ORT, C.x_orthogonal)])
     add("Point.move", h_point_move, [PT + "move"])
     return gs
 
@@ -404,7 +407,12 @@ def bounded_numeric(seed):
                         failures.append(dict(case=dict(type=name, v=[str(c) for c in v], w=[str(c) for c in w]), what="numeric:raised %r" % (e,), **{"class": "numeric:raise"}))
                     continue
                 ex = math.sqrt(sum(float(c) ** 2 for c in v))
-                ok = abs(L - ex) <= 1e-9 * ex and abs(n.length() - 1) <= 1e-9 and 0 <= ang <= math.pi
+                exw = math.sqrt(sum(float(c) ** 2 for c in w))
+                ref = math.acos(max(-1.0, min(1.0, sum(float(a_) * float(b_) for a_, b_ in zip(v, w)) / (ex * exw))))
+                ok = abs(L - ex) <= 1e-9 * ex and abs(n.length() - 1) <= 1e-9 and 0 <= ang <= math.pi and abs(ang - ref) <= 1e-7
+                for kk in (2, -1, -3):  # exactly parallel / anti-parallel partners
+                    a2 = v.angle(Vector(*[kk * c for c in v]))
+                    ok = ok and abs(a2 - (0.0 if kk > 0 else math.pi)) <= 1e-7
                 ok = ok and all(abs(float(nc) * ex - float(c)) <= 1e-9 * ex for nc, c in zip(n, v))
                 if not ok and len(failures) < 5:
                     failures.append(dict(case=dict(type=name, v=[str(c) for c in v], w=[str(c) for c in w]), what="numeric:length/normalized/angle inconsistent", **{"class": "numeric:inconsistent"}))
